@@ -2300,6 +2300,35 @@ func genTrans(repo, outDir string) error {
 			facts["TransC12."+name] = d.text
 		}
 	}
+	// the Apply / apply methods of the plugins with a wildcard form (translate_apply.go)
+	curTag = "TransC01"
+	if p, err := loadPkg(repo, "internal/plugin"); err != nil {
+		failf("translate: plugin Apply: %v", err)
+	} else {
+		type job struct {
+			name string
+			run  func() (leanDef, error)
+		}
+		jobs := []job{
+			{"Prefix_apply", func() (leanDef, error) { return translateApplyHelper(p, "Prefix", "Corerad.Prefix", "pair") }},
+			{"Prefix_Apply", func() (leanDef, error) { return translateApplyMethod(p, "Prefix", "Corerad.Prefix", "Prefix", "Addrs") }},
+			{"Route_apply", func() (leanDef, error) { return translateApplyHelper(p, "Route", "Corerad.Prefix", "one") }},
+			{"Route_Apply", func() (leanDef, error) { return translateApplyMethod(p, "Route", "Corerad.Prefix", "Prefix", "Routes") }},
+			{"RDNSS_apply", func() (leanDef, error) { return translateApplyHelper(p, "RDNSS", "Corerad.IP", "none") }},
+			{"RDNSS_Apply", func() (leanDef, error) { return translateApplyMethod(p, "RDNSS", "Corerad.IP", "Servers", "Addrs") }},
+		}
+		for _, j := range jobs {
+			d, err := j.run()
+			if err != nil {
+				failf("%s", err)
+				sb.WriteString("-- NOT TRANSLATED: " + docSafe(err.Error()) + "\n\n")
+				facts["TransC01."+j.name] = "NOT TRANSLATED: " + err.Error()
+				continue
+			}
+			sb.WriteString(d.text + "\n\n")
+			facts["TransC01."+j.name] = d.text
+		}
+	}
 	// the lifetime computed by NewPREF64 (translate_synth.go)
 	curTag = "TransC01"
 	if p, err := loadPkg(repo, "internal/plugin"); err != nil {
